@@ -618,6 +618,30 @@ func c12Edges(x *c12ctx, jr *rand.Rand, idx int) {
 			x.verifyAndJudge("degenerate-commitments", fmt.Sprintf("m=%d claims m >= m+1000 with every C_i = %s", m, map[bool]string{true: "0", false: "N"}[fc.Sign() == 0]), d, cred, ctx, nonce, false)
 		}
 	}
+	// a degenerate range proof next to a well-formed one on the same attribute (every carried range proof has to be checked,
+	// whatever its position in the list)
+	if m >= 1 {
+		for _, degFirst := range []bool{false, true} {
+			var d *gabi.ProofD
+			pv, _ := mon.Try(func() {
+				dis, hid := hiddenOf(cred, []int{1})
+				p := refimpl.NewDProver(x.key.PK, cred.C.Signature, dis, hid)
+				good := &refimpl.RangeProver{PK: x.key.PK, Index: 2, M: cred.NormLedger(2), MRand: p.R[2], Sign: 1, A: 1, K: bi(m - 1), Ld: 128, D: []*big.Int{bi(1), bi(0), bi(0), bi(0)}}
+				bad := &refimpl.RangeProver{PK: x.key.PK, Index: 2, M: cred.NormLedger(2), MRand: p.R[2], Sign: 1, A: 1, K: bi(m + 1000), Ld: 128, D: []*big.Int{bi(1), bi(2), bi(3), bi(4)}, ForceC: bi(0)}
+				order := []*refimpl.RangeProver{good, bad}
+				if degFirst {
+					order = []*refimpl.RangeProver{bad, good}
+				}
+				p.Extra = append(order[0].Commit(), order[1].Commit()...)
+				c := refimpl.Challenge(ctx, nonce, p.Commit(), false)
+				d = p.Respond(c)
+				d.RangeProofs = map[int][]*rangeproof.Proof{2: {order[0].Respond(c), order[1].Respond(c)}}
+			})
+			if pv == nil && d != nil {
+				x.verifyAndJudge("degenerate-commitments", fmt.Sprintf("m=%d: a proof of m >= m-1 and a degenerate proof (every C_i = 0) of m >= m+1000 on the same attribute, degenerate first=%v", m, degFirst), d, cred, ctx, nonce, false)
+			}
+		}
+	}
 	// one commitment alone degenerate: the relation for m multiplies every C_i, so a single zero collapses it
 	for pos := 0; pos < 4; pos++ {
 		for _, fc := range []*big.Int{bi(0), cp(pk.N), mul(pk.N, bi(3))} {
